@@ -365,7 +365,16 @@ func oracleC11(x *Exec) []Finding {
 			need("noopener", "the link ends up with target=\"_blank\"")
 		}
 		// existing tokens kept, required tokens not duplicated
-		if brel, ok := firstAttr(et.Before, "rel"); ok && hasRel {
+		// ("existing" = the first rel attribute of the input that the policy admits; one the allowlist
+		// removes was never going to be in the output)
+		brel, ok := "", false
+		for _, a := range et.Before {
+			if a.K == "rel" && p.ruleAccepts(et.N, "rel", a.V) {
+				brel, ok = a.V, true
+				break
+			}
+		}
+		if ok && hasRel {
 			bt := relToks(brel)
 			for t := range bt {
 				if toks[t] == 0 {
